@@ -32,6 +32,11 @@ def safeChain : List (Limbs → Limbs) → List (Limbs → Prop) → Limbs → P
   | f :: fs, p :: ps, l => p l ∧ safeChain fs ps (f l)
   | _, _, _ => True
 
+/-- where both routines end: eleven 21-bit limbs, a twelfth of at most 2^21, nothing above -/
+def RF (l : Limbs) : Prop :=
+  0 ≤ l.s0 ∧ l.s0 ≤ 2097151 ∧ 0 ≤ l.s1 ∧ l.s1 ≤ 2097151 ∧ 0 ≤ l.s2 ∧ l.s2 ≤ 2097151 ∧ 0 ≤ l.s3 ∧ l.s3 ≤ 2097151 ∧ 0 ≤ l.s4 ∧ l.s4 ≤ 2097151 ∧ 0 ≤ l.s5 ∧ l.s5 ≤ 2097151 ∧ 0 ≤ l.s6 ∧ l.s6 ≤ 2097151 ∧ 0 ≤ l.s7 ∧ l.s7 ≤ 2097151 ∧ 0 ≤ l.s8 ∧ l.s8 ≤ 2097151 ∧ 0 ≤ l.s9 ∧ l.s9 ≤ 2097151 ∧ 0 ≤ l.s10 ∧ l.s10 ≤ 2097151 ∧ 0 ≤ l.s11 ∧ l.s11 ≤ 2097152 ∧
+  l.s12 = 0 ∧ l.s13 = 0 ∧ l.s14 = 0 ∧ l.s15 = 0 ∧ l.s16 = 0 ∧ l.s17 = 0 ∧ l.s18 = 0 ∧ l.s19 = 0 ∧ l.s20 = 0 ∧ l.s21 = 0 ∧ l.s22 = 0 ∧ l.s23 = 0
+
 theorem ior_ishl (x y : Int) (k : Nat) (hx0 : 0 ≤ x) (hxk : x < 2 ^ k) (hy : 0 ≤ y) :
     Go.ior x (Go.ishl y k) = x + y * 2 ^ k := by
   obtain ⟨a, rfl⟩ := Int.eq_ofNat_of_zero_le hx0
